@@ -90,6 +90,8 @@ func (crashFamily) Gen(n int, seed int64, mode, tier string) []interface{} {
 		for r := 0; r < rounds; r++ {
 			var add int
 			switch {
+			case mode == "edges": // C02: stop right after a truncation point
+				add = []int{1995, 1000, 1000, 1000, 1000}[r%5] + rng.Intn(12)
 			case i%3 == 0: // small logs: batch edges (10)
 				add = 1 + rng.Intn(35)
 			case i%3 == 1: // around the segment roll (500)
@@ -99,7 +101,13 @@ func (crashFamily) Gen(n int, seed int64, mode, tier string) []interface{} {
 			}
 			total += add
 			run := crashRun{Append: add}
-			if r == rounds-1 || rng.Intn(3) == 0 {
+			if mode == "edges" {
+				// a clean stop is only deterministic at the end of the log: kill otherwise
+				run.Upto, run.Kill = (total/1000)*1000+rng.Intn(4), true
+				if run.Upto >= total-1 {
+					run.Upto, run.Kill = total-1, false
+				}
+			} else if r == rounds-1 || rng.Intn(3) == 0 {
 				run.Upto, run.Kill = total-1, false
 			} else {
 				lo := stored
